@@ -1348,3 +1348,35 @@ def final_delegate(model: Model, fi: FuncInfo, depth: int = 3) -> FuncInfo:
             return fi
         fi = last
     return fi
+
+
+def generator_names(model: Model) -> Set[str]:
+    """simple names of the package's generator functions (a `yield` of their own; context managers apart)"""
+    got = getattr(model, "_generator_names", None)
+    if got is None:
+        got = set()
+        for f in model.funcs.values():
+            if isinstance(f.node, ast.Lambda) or any(d.endswith("contextmanager") for d in f.decorators):
+                continue
+            if any(isinstance(n, (ast.Yield, ast.YieldFrom)) for n in own_nodes(f)):
+                got.add(f.name)
+        model._generator_names = got
+    return got
+
+
+def mentions_generator(model: Model, t) -> Optional[str]:
+    """name of a package generator function that term t calls (the term engine does not read generators: a rule that
+    would have to judge such a term refuses instead)"""
+    names = generator_names(model)
+    if not names:
+        return None
+    from .terms import walk_all
+
+    for q in walk_all(t):
+        if isinstance(q, tuple) and q and q[0] == "app" and isinstance(q[1], tuple):
+            c = q[1]
+            if c[0] == "global" and c[1].split(".")[-1].split(":")[-1] in names:
+                return c[1].split(".")[-1]
+            if c[0] == "attr" and c[2] in names:
+                return c[2]
+    return None
